@@ -118,6 +118,15 @@ class Folder:
             return all(vals) if isinstance(e.op, ast.And) else any(vals)
         if isinstance(e, ast.UnaryOp) and isinstance(e.op, ast.Not):
             return not self.fold(e.operand, env)
+        if isinstance(e, ast.Subscript) and isinstance(e.slice, ast.Slice):
+            v = self.fold(e.value, env)
+            lo = self.fold(e.slice.lower, env) if e.slice.lower is not None else None
+            hi = self.fold(e.slice.upper, env) if e.slice.upper is not None else None
+            st = self.fold(e.slice.step, env) if e.slice.step is not None else None
+            try:
+                return v[lo:hi:st]
+            except Exception as ex:  # pragma: no cover
+                raise Unfoldable("slice: %s" % ex)
         if isinstance(e, ast.Subscript) and not isinstance(e.slice, ast.Slice):
             v, i = self.fold(e.value, env), self.fold(e.slice, env)
             try:
@@ -173,8 +182,19 @@ class Folder:
                 if len(asg) > 1:
                     raise Unfoldable("%s is assigned more than once" % name)
             # module level: exactly one binding, and no in-place mutation of it at module level
-            binds = [n for n in self.module.tree.body if isinstance(n, ast.Assign) and any(isinstance(t, ast.Name) and t.id == name for t in n.targets)]
+            binds = [n for n in self.module.tree.body if (isinstance(n, ast.Assign) and any(isinstance(t, ast.Name) and t.id == name for t in n.targets)) or (isinstance(n, ast.AnnAssign) and isinstance(n.target, ast.Name) and n.target.id == name and n.value is not None)]
             if len(binds) != 1:
+                # imported from another module of the program?
+                imp = getattr(self.module, "imports", {}).get(name)
+                prog = getattr(self, "prog", None)
+                if not binds and imp and prog is not None:
+                    r = prog.resolve_symbol(imp)
+                    if r and "." in r:
+                        mod, attr = r.rsplit(".", 1)
+                        if mod in prog.modules:
+                            sub = Folder(prog.modules[mod], None, self.budget)
+                            sub.prog = prog
+                            return sub.fold(ast.Name(id=attr, ctx=ast.Load()))
                 raise Unfoldable("%s has %d module-level bindings" % (name, len(binds)))
             for n in ast.walk(self.module.tree):
                 if isinstance(n, ast.Call) and isinstance(n.func, ast.Attribute) and isinstance(n.func.value, ast.Name) and n.func.value.id == name and n.func.attr in ("append", "extend", "insert", "remove", "pop", "clear", "sort", "reverse", "update", "add"):
@@ -216,6 +236,8 @@ class Folder:
         return r
 
 
-def fold_in(func: Func, e: ast.AST):
-    """Fold ``e`` as it appears inside ``func`` (locals bound once, then module level)."""
-    return Folder(func.module, func).fold(e)
+def fold_in(func: Func, e: ast.AST, prog=None):
+    """Fold ``e`` as it appears inside ``func`` (locals bound once, then module level, then imported constants)."""
+    fo = Folder(func.module, func)
+    fo.prog = prog
+    return fo.fold(e)
